@@ -8,6 +8,7 @@ UNIT_MODES = {
     'addsub': ['dbg', 'rel'],
     'powlog': ['dbg', 'rel'],
     'div': ['dbg', 'rel'],
+    'numtraits_fwd': ['dbg', 'rel'],
 }
 
 # property -> verus units owned by the property (dependencies are added automatically) and the
